@@ -117,6 +117,34 @@ def run_corpus(prop: str, *, src_root: str = "/repo", workers: int = 16) -> dict
     return summary
 
 
+def run_variants(prop: str, src_root: str = "/repo") -> dict:
+    """No-alarm check: the property's checker must give the same verdict (no unlisted violation, no
+    analysis error) on behaviour-preserving rewrites of the whole package: an ast.unparse round trip,
+    every function-local variable renamed, every if/else inverted."""
+    from .core import Ctx, load_known
+    from .variants import build
+
+    out: dict[str, str] = {}
+    known = {(k["property"], k["rule"], k["function"], k["instance"]) for k in load_known() if k["property"] == prop}
+    mod = importlib.import_module(f"sa.props.{prop.lower()}")
+    for variant in ("unparse", "rename", "ifelse"):
+        tmp = tempfile.mkdtemp(prefix=f"vgi-verif-{variant}-")
+        try:
+            build(variant, tmp, src_root)
+            ctx = Ctx(prop, tmp, "quick")
+            try:
+                mod.run(ctx)
+            except AnalysisError as e:
+                raise AnalysisError(f"no-alarm variant '{variant}': checker cannot decide a behaviour-preserving rewrite ({e})") from e
+            viol = [o for o in ctx.obligations if not o.ok and o.key(prop) not in known]
+            if viol:
+                raise AnalysisError(f"no-alarm variant '{variant}': checker raises a false alarm on a behaviour-preserving rewrite: {viol[0].rule}:{viol[0].instance}")
+            out[variant] = f"same verdict ({len(ctx.obligations)} obligations)"
+        finally:
+            shutil.rmtree(tmp, ignore_errors=True)
+    return {"noalarm_variants": out}
+
+
 def main(argv: list[str]) -> int:
     props = [a.upper() for a in argv] or sorted({f[:-3].upper() for f in os.listdir(os.path.join(os.path.dirname(__file__), "mutants")) if f.startswith("c") and f.endswith(".py")})
     rc = 0
